@@ -141,6 +141,7 @@ type (
 		drop        string
 		ifExists    bool // "if exists" of drop column / "if not exists" of add column
 		tblIfExists bool
+		more        []*alterTableStmt // further actions of a multi-action ALTER TABLE (a, b, …), same table
 	}
 	dropStmt struct {
 		what     string // index | view | table | schema
@@ -419,7 +420,7 @@ func (p *parser) create(rs rawStmt) any {
 		}
 		p.expectOp("(")
 		for {
-			st.cols = append(st.cols, p.ident())
+			st.cols = append(st.cols, p.colName())
 			desc := false
 			if p.kw("desc") {
 				desc = true
@@ -458,8 +459,31 @@ func (p *parser) create(rs rawStmt) any {
 	return nil
 }
 
+// reservedWords: PostgreSQL key words of category "reserved" (appendix C; pg_get_keywords() catdesc =
+// 'reserved'). An unquoted one cannot name a column: CREATE TABLE, ALTER TABLE ADD/DROP COLUMN and the column
+// list of CREATE INDEX answer 42601 — a definite syntax error, not a limit of this fake (not "unsupported").
+var reservedWords = func() map[string]bool {
+	m := map[string]bool{}
+	for _, w := range strings.Fields(`all analyse analyze and any array as asc asymmetric both case cast check collate column
+constraint create current_catalog current_date current_role current_time current_timestamp current_user default deferrable
+desc distinct do else end except false fetch for foreign from grant group having in initially intersect into lateral leading
+limit localtime localtimestamp not null offset on only or order placing primary references returning select session_user
+some symmetric table then to trailing true union unique user using variadic when where window with`) {
+		m[w] = true
+	}
+	return m
+}()
+
+// colName is ident() for a column name in DDL: an unquoted reserved word is a syntax error.
+func (p *parser) colName() string {
+	if t := p.peek(); t.k == tIdent && reservedWords[t.s] {
+		panic(parseFail{errf("42601", "syntax error at or near %q", t.s)})
+	}
+	return p.ident()
+}
+
 func (p *parser) colDef() colDef {
-	cd := colDef{name: p.ident()}
+	cd := colDef{name: p.colName()}
 	cd.typ, cd.ddl = p.typeName()
 	for {
 		switch {
@@ -536,19 +560,27 @@ func (p *parser) alter() any {
 	st.tblIfExists = p.ifExists()
 	p.kw("only")
 	st.table = p.qname()
-	switch {
-	case p.kw("add"):
-		p.kw("column")
-		st.ifExists = p.ifNotExists()
-		cd := p.colDef()
-		st.add = &cd
-	case p.kw("drop"):
-		p.kw("column")
-		st.ifExists = p.ifExists()
-		st.drop = p.ident()
-		_ = p.kw("cascade") || p.kw("restrict")
-	default:
-		p.unexpected()
+	cur := st
+	for {
+		switch {
+		case p.kw("add"):
+			p.kw("column")
+			cur.ifExists = p.ifNotExists()
+			cd := p.colDef()
+			cur.add = &cd
+		case p.kw("drop"):
+			p.kw("column")
+			cur.ifExists = p.ifExists()
+			cur.drop = p.colName()
+			_ = p.kw("cascade") || p.kw("restrict")
+		default:
+			p.unexpected()
+		}
+		if !p.op(",") {
+			break
+		}
+		cur = &alterTableStmt{table: st.table, tblIfExists: st.tblIfExists}
+		st.more = append(st.more, cur)
 	}
 	return st
 }
